@@ -69,7 +69,7 @@ def drift(workdir, behs, maxw, unit):
         if r["perr"]:
             env_gap += 1          # the grammar environment produced a source the parser rejects
             continue
-        for w in range(0, maxw + 1):
+        for w in sorted(int(k) for k in b["pred"]):          # the widths the model predicted (0..MaxW or a set)
             n += 1
             if r["real"][w] != b["pred"][str(w)]:
                 d += 1
@@ -87,14 +87,14 @@ def concretise_events(seq):
     parts = []
     for ev in seq:
         e = ev["e"]
-        if e in ("item", "opd", "op", "bc", "lc", "txt", "code"):
+        if e in ("item", "opd", "op", "bc", "lc", "txt", "code", "arg", "args"):
             parts.append(ev["txt"])
         elif e == "comma":
             parts.append(",")
         elif e == "sp":
             parts.append(" ")
         elif e == "nl":
-            parts.append("\n" * ev["n"])
+            parts.append("\n" * ev["n"] + " " * ev.get("ind", 0))
         elif e == "par":
             parts.append("\n" * ev["n"])
     return "".join(parts)
@@ -186,5 +186,71 @@ def mathdelim_behaviours(workdir, maxlen, block, maxcmt=2, maxw=24, unit=2, gen=
             inner = "(" + _flow_text(j["seq"]) + ")"
             j["text"] = ("$ " + inner + " $\n") if block else ("$" + inner + "$\n")
             j["id"] = "beh:mathdelim:%s" % hashlib.sha256(j["text"].encode()).hexdigest()[:12]
+            behs.append(j)
+    return r, behs
+
+
+TABLE_CFG = ("SPECIFICATION Spec\nCONSTANTS ArgKinds = {%s}\n MaxArgs = %d\n MaxCells = %d\n MaxTriv = %d\n MaxCmt = %d\n"
+             " MaxNl = %d\n MaxW = %d\n Unit = %d\n GenOn = %s\n RawName = FALSE\nINVARIANTS %s\nCHECK_DEADLOCK FALSE\n")
+TABLE_INVS = "InvTermination InvConservation InvIndentUnit InvRowShape InvConvergence"
+
+
+def table_behaviours(workdir, kinds, maxargs, maxcells=3, maxtriv=1, maxcmt=1, maxnl=2, maxw=24, unit=2, gen=True, workers=8,
+                     timeout=1500):
+    """TableMC: the argument list of a table / grid call (is_formatable_table, convert_table, PlainStylist)."""
+    cfg = TABLE_CFG % (", ".join('"%s"' % k for k in kinds), maxargs, maxcells, maxtriv, maxcmt, maxnl, maxw, unit,
+                       "TRUE" if gen else "FALSE", TABLE_INVS + (" Gen" if gen else ""))
+    r = C.model_check("TableMC", cfg, workdir, workers=workers, xmx="8g", timeout=timeout)
+    behs = []
+    if gen:
+        for g in C.parse_tlc_tuple_lines(r["out"], "GEN"):
+            j = json.loads(C.unquote_tla_string(g))
+            j["text"] = "#table(" + concretise_events(j["seq"]) + ")\n"
+            j["id"] = "beh:table:%s" % hashlib.sha256(j["text"].encode()).hexdigest()[:12]
+            behs.append(j)
+    return r, behs
+
+
+DOT_CFG = ("SPECIFICATION Spec\nCONSTANTS MaxLen = %d\n MaxOps = %d\n MaxCmt = %d\n MaxArgs = %d\n ArgKinds = {%s}\n"
+           " NlIndents = {%s}\n Widths = {%s}\n Unit = %d\n GenOn = %s\n EstFromSource = FALSE\nINVARIANTS %s\nCHECK_DEADLOCK FALSE\n")
+DOT_INVS = "InvTermination InvConservation InvNoDoubleBlank InvIndentUnit InvHygiene InvDotTight InvConvergence"
+DOT_WIDTHS = [0, 4, 8, 10, 12, 14, 16, 18, 20, 22, 24, 28, 32, 36, 40, 44]
+
+
+def dotchain_behaviours(workdir, maxlen, maxops=2, maxcmt=1, maxargs=1, kinds=("x", "L"), indents=(0, 14), widths=DOT_WIDTHS,
+                        unit=2, gen=True, workers=8, timeout=1500):
+    """DotChainMC: try_convert_dot_chain (one-line form vs breakable chain, chain_width) + ChainStylist for dots."""
+    cfg = DOT_CFG % (maxlen, maxops, maxcmt, maxargs, ", ".join('"%s"' % k for k in kinds), ", ".join(map(str, indents)),
+                     ", ".join(map(str, widths)), unit, "TRUE" if gen else "FALSE", DOT_INVS + (" Gen" if gen else ""))
+    r = C.model_check("DotChainMC", cfg, workdir, workers=workers, xmx="8g", timeout=timeout)
+    behs = []
+    if gen:
+        for g in C.parse_tlc_tuple_lines(r["out"], "GEN"):
+            j = json.loads(C.unquote_tla_string(g))
+            j["text"] = "#(" + concretise_events(j["seq"]) + ", z9)\n"
+            j["id"] = "beh:dotchain:%s" % hashlib.sha256(j["text"].encode()).hexdigest()[:12]
+            behs.append(j)
+    return r, behs
+
+
+COMMENT_CFG = ("SPECIFICATION Spec\nCONSTANTS MaxLines = %d\n Leads = {%s}\n MidBodies = {\"c1\", \"* s1\", \"\"}\n"
+               " EndBodies = {\"*/\", \"c9 */\", \"* s9 */\"}\n Places = {\"after\", \"before\", \"mid\", \"own\"}\n MaxW = %d\n"
+               " Unit = %d\n GenOn = %s\n AsFoundC = {}\nINVARIANTS %s\nCHECK_DEADLOCK FALSE\n")
+COMMENT_INVS = "InvTextKept InvFirstLine InvRelative InvBullet InvHygiene InvConvergence"
+
+
+def comment_behaviours(workdir, maxlines, leads=(0, 1, 3, 6), maxw=16, unit=2, gen=True, workers=8, timeout=1500):
+    """CommentMC: multi-line block comments (plain / bullet style) in a content block."""
+    cfg = COMMENT_CFG % (maxlines, ", ".join(map(str, leads)), maxw, unit, "TRUE" if gen else "FALSE",
+                         COMMENT_INVS + (" Gen" if gen else ""))
+    r = C.model_check("CommentMC", cfg, workdir, workers=workers, xmx="8g", timeout=timeout)
+    behs = []
+    if gen:
+        for g in C.parse_tlc_tuple_lines(r["out"], "GEN"):
+            j = json.loads(C.unquote_tla_string(g))
+            cm = "\n".join(j["src"])
+            body = {"after": "w1 " + cm, "before": cm + " xx2", "mid": "w1 " + cm + " xx2", "own": "w1\n" + cm + "\nxx2"}[j["place"]]
+            j["text"] = "#f[" + body + "]\n"
+            j["id"] = "beh:comment:%s" % hashlib.sha256(j["text"].encode()).hexdigest()[:12]
             behs.append(j)
     return r, behs
